@@ -62,4 +62,4 @@ package meter
 //@ func (noProgressMeter).Done
 //@   pure
 
-//@ property C18: NewProgressMeter (*progressMeter).Start$1 (*progressMeter).Start (*progressMeter).Inc (*progressMeter).Add (*progressMeter).Done (noProgressMeter).Start (noProgressMeter).Inc (noProgressMeter).Add (noProgressMeter).Done
+//@ property C18: structural/atomic-consistency NewProgressMeter (*progressMeter).Start$1 (*progressMeter).Start (*progressMeter).Inc (*progressMeter).Add (*progressMeter).Done (noProgressMeter).Start (noProgressMeter).Inc (noProgressMeter).Add (noProgressMeter).Done
